@@ -16,19 +16,40 @@ class StatFaults:
     """Faults at the k-th file-system call made for a child.  failing: selector -> errno name (stat fails
     always), or selector -> {"call": "stat" | "open", "from": k, "errno": name}: the k-th and every later
     call of that kind for the selector (and, for open, for its sidecar files) fails; earlier ones go through.
-    arm() resets the counters."""
+    {"call": "touch", "from": k}: the object is really deleted from the file system right after the k-th
+    look the server takes at it through the VFS (stat / isfile / isdir / exists / open) has returned: whatever
+    inspects it next -- through the VFS or not (the import machinery, the mailbox module) -- finds it gone.
+    arm() resets the counters and puts deleted objects back."""
 
-    def __init__(self, failing):
+    TOUCH_CALLS = ("stat", "isfile", "isdir", "exists", "open")
+
+    def __init__(self, failing, path_of=None, restore=None):
+        self.path_of, self.restore = path_of, restore
         self.failing = {}
         for sel, f in failing.items():
             if isinstance(f, str):
                 f = {"call": "stat", "from": 1, "errno": f}
             self.failing[sel] = f
         self.counts = {}
-        self.orig_stat = self.orig_open = None
+        self.orig = {}
 
     def arm(self):
         self.counts = {}
+        for sel, f in self.failing.items():
+            if f["call"] == "touch" and self.restore:
+                self.restore(sel)
+
+    def touched(self, selector):
+        f = self.failing.get(selector)
+        if f is None or f["call"] != "touch":
+            return
+        k = self.counts.get(("touch", selector), 0) + 1
+        self.counts[("touch", selector)] = k
+        if k == f["from"]:
+            try:
+                os.unlink(self.path_of(selector))
+            except OSError:
+                pass
 
     def check(self, call, selector):
         f = self.failing.get(selector)
@@ -41,23 +62,24 @@ class StatFaults:
             raise OSError(code, os.strerror(code), selector)
 
     def __enter__(self):
-        self.orig_stat, self.orig_open = hbase.VFS_Real.stat, hbase.VFS_Real.open
-        me, ostat, oopen = self, self.orig_stat, self.orig_open
+        me = self
+        self.orig = {name: getattr(hbase.VFS_Real, name) for name in self.TOUCH_CALLS}
 
-        def stat(vfs, selector):
-            me.check("stat", selector)
-            return ostat(vfs, selector)
-
-        def open_(vfs, selector, *a, **k):
-            me.check("open", selector)
-            return oopen(vfs, selector, *a, **k)
-        hbase.VFS_Real.stat = stat
-        hbase.VFS_Real.open = open_
+        def wrap(name, orig):
+            def call(vfs, selector, *a, **k):
+                me.check(name, selector)
+                try:
+                    return orig(vfs, selector, *a, **k)
+                finally:
+                    me.touched(selector)
+            return call
+        for name, orig in self.orig.items():
+            setattr(hbase.VFS_Real, name, wrap(name, orig))
         return self
 
     def __exit__(self, *a):
-        hbase.VFS_Real.stat = self.orig_stat
-        hbase.VFS_Real.open = self.orig_open
+        for name, orig in self.orig.items():
+            setattr(hbase.VFS_Real, name, orig)
 
 
 class Vanish:
@@ -65,8 +87,9 @@ class Vanish:
     its entries: VFS_Real.listdir is wrapped so that, right after the real listdir of the
     directory has returned, the chosen files are unlinked.  arm() puts them back."""
 
-    def __init__(self, config, dirsel, names):
+    def __init__(self, config, dirsel, names, contents=None):
         self.config, self.dirsel, self.names = config, dirsel, list(names)
+        self.contents = contents or {}      # name -> (bytes, mode or None): what the tree spec put there
         self.base = "" if dirsel == "/" else dirsel
         self.orig = None
 
@@ -75,8 +98,12 @@ class Vanish:
 
     def arm(self):
         for n in self.names:
+            data, mode = self.contents.get(n) or (
+                b"<html><head><title>Soon gone</title></head></html>\n" if n.endswith(".html") else b"soon gone\n", None)
             with open(self.path(n), "wb") as f:
-                f.write(b"<html><head><title>Soon gone</title></head></html>\n" if n.endswith(".html") else b"soon gone\n")
+                f.write(data)
+            if mode is not None:
+                os.chmod(self.path(n), mode)
 
     def __enter__(self):
         self.orig = hbase.VFS_Real.listdir
@@ -108,9 +135,33 @@ def op_c12_faults(job):
         failing = {base + "/" + n: e for n, e in (job.get("stat_faults") or {}).items()}
         failing.update({base + "/" + n: e for n, e in (job.get("call_faults") or {}).items()})
         out = {"runs": {}, "protocols": {}}
+        # what the tree spec put at each selector: faults that really delete an object put it back before every run
+        contents = {}
+        if job.get("restore_from_tree"):
+            for e in job["tree"]:
+                if e.get("kind", "file") == "file":
+                    contents["/" + e["path"].lstrip("/")] = (DRV.s2b(e.get("data", "")), e.get("mode"))
+        root = w.root
+
+        def path_of(selector):
+            return os.fsencode(root + selector)
+
+        def restore(selector):
+            data, mode = contents.get(selector) or (b"soon gone\n", None)
+            with open(path_of(selector), "wb") as f:
+                f.write(data)
+            if mode is not None:
+                os.chmod(path_of(selector), mode)
         for kind in job["kinds"]:
+            # "umn" / "dir": the shipped handler list with UMN.UMNDirHandler / dir.DirHandler for directories;
+            # "<umn|dir>:<chain>": the handler configuration job["chains"][chain] (%DIR% = the directory handler)
+            cls, _, chain = kind.partition(":")
             over = {k: dict(v) for k, v in cfg.items()}
-            if kind == "dir":
+            if chain:
+                dirh = {"umn": "UMN.UMNDirHandler", "dir": "dir.DirHandler"}[cls]
+                for sec, opts in job["chains"][chain].items():
+                    over.setdefault(sec, {}).update({k: v.replace("%DIR%", dirh) for k, v in opts.items()})
+            elif kind == "dir":
                 over.setdefault("handlers.HandlerMultiplexer", {})["handlers"] = c07.DIR_HANDLERS
             w.spec["config"] = over
             w.configure()
@@ -124,16 +175,20 @@ def op_c12_faults(job):
                 pygopherd.logger.init(w.config)
                 saved_stdout = sys.stdout
                 sys.stdout = io.TextIOWrapper(io.BytesIO(), errors="surrogateescape")
-            with StatFaults(failing) as sf, Vanish(w.config, dirsel, vanish) as van0:
+            with StatFaults(failing, path_of, restore) as sf, \
+                    Vanish(w.config, dirsel, vanish, {n: contents[base + "/" + n] for n in vanish
+                                                      if base + "/" + n in contents}) as van0:
                 class Arm:      # re-arm both fault injectors before every run
                     @staticmethod
                     def arm():
                         sf.arm()
                         van0.arm()
                 van = Arm
+                van.arm()
                 world = c07.describe_world(w.config, w.root, dirsel,
                                            stat_fail=set(job.get("stat_faults") or {}) | set(vanish),
                                            unreadable=set(job.get("call_faults") or {}))
+                van.arm()
                 names = [c["name"] for c in world["children"]]
                 groups = {}
                 for p in job["perms"]:
@@ -142,7 +197,12 @@ def op_c12_faults(job):
                     elif p == "reversed":
                         p = list(reversed(range(len(names))))
                     van.arm()
-                    r = c07.run_prepare(w.config, dirsel, kind, c07.perm_of(names, p))
+                    if chain:
+                        # a handler may leave files of its own in the directory (the archive handler's index
+                        # cache): the enumeration order is a permutation of what is there now
+                        names = [os.fsdecode(x) for x in os.listdir(path_of(dirsel))]
+                        p = list(range(len(names))) if p[:2] == [0, 1] else list(reversed(range(len(names))))
+                    r = c07.run_prepare(w.config, dirsel, cls, c07.perm_of(names, p))
                     key = DRV.json.dumps(r, sort_keys=True)
                     groups.setdefault(key, {"result": r, "perms": []})["perms"].append(p)
                 out["runs"][kind] = {"world": world, "groups": list(groups.values()),
